@@ -12,7 +12,7 @@ import zlib
 import numpy as np
 import pandas as pd
 
-GEN_VERSION = 6
+GEN_VERSION = 8
 
 STATES = ["AA", "BB", "CC", "DD"]
 CLASSES = ["urban", "suburban", "rural", "exurb"]
@@ -155,6 +155,19 @@ def make_election(rng, o=None):
                 bt, bd = 1, int(rng.integers(0, 2))
             df.loc[j, ["baseline_turnout", "baseline_dem", "baseline_gop", "t_turnout", "t_dem", "t_gop"]] = [
                 bt, bd, bt - bd, tt, td, tt - td]
+    if o.get("uncontested", bool(rng.random() < 0.1)) and len(df) > 12:
+        # an uncontested group: every two-party vote of one county (district offices: of one district) goes to one side
+        col = "district" if district and rng.random() < 0.6 else "county_fips"
+        j0 = int(rng.integers(0, len(df)))
+        m_ = (df[col] == df[col].iloc[j0]) & (df["postal_code"] == df["postal_code"].iloc[j0])
+        if rng.random() < 0.5:
+            df.loc[m_, "baseline_dem"] += df.loc[m_, "baseline_gop"]
+            df.loc[m_, "t_dem"] += df.loc[m_, "t_gop"]
+            df.loc[m_, ["baseline_gop", "t_gop"]] = 0
+        else:
+            df.loc[m_, "baseline_gop"] += df.loc[m_, "baseline_dem"]
+            df.loc[m_, "t_gop"] += df.loc[m_, "t_dem"]
+            df.loc[m_, ["baseline_dem", "t_dem"]] = 0
     if n_zero and len(df) > 10:
         idx = rng.choice(len(df), size=min(n_zero, len(df) // 10), replace=False)
         df.loc[idx, ["baseline_turnout", "baseline_dem", "baseline_gop"]] = 0
@@ -240,6 +253,8 @@ def make_feed(rng, el, o=None):
                 pct = float(rng.integers(1, int(hi) + 1)) if thr > 1 else 0.25
                 if boundary and rng.random() < 0.2 and thr > 1:
                     pct = float(thr - 1)
+                elif boundary and rng.random() < 0.15 and thr > 1:
+                    pct = float(thr) - float(rng.choice([0.4, 0.25, 0.1, 0.01]))  # rounds to the threshold, is below it
                 frac = min(pct, 100) / 100
                 if rng.random() < partial_above:
                     frac = float(rng.uniform(1.3, 3.0))
